@@ -5,7 +5,7 @@ from lib.checkdef import default_replay_cmd, run_property
 def run(tier, seed):
     return run_property(
         "C08", tier, seed, level="other",
-        deductive=[("c08_locks", None), ("c08_sets", None), ("c_op", r"^C08\.op")],
+        deductive=[("c08_locks", None), ("c08_sets", None), ("c_op", r"^C08\.op"), ("c13_inplace", r"^C08\.inplace")],
         bounded=[("state_bounded.py", ["--check", "C08"])],
         trusted=[
             "pyvc/heapdom.py encoding of dict / Counter / defaultdict(set) keyed by id()",
